@@ -16,6 +16,7 @@ mod thetam;
 mod c04;
 mod cpcm;
 mod c05;
+mod c06;
 mod replay;
 
 use common::{Ctx, Tier};
@@ -66,6 +67,7 @@ fn main() {
             }
         }
         "C16" => c16::run(&Ctx::new("C16", tier)),
+        "C06" => c06::run(&Ctx::new("C06", tier).with_filter(|k| !k.contains("cpc.bounds"))),
         "C05" => c05::run(&Ctx::new("C05", tier).with_filter(|k| !k.starts_with("cpc.bounds"))),
         "C04" => c04::run(&Ctx::new("C04", tier).with_filter(|k| !k.starts_with("theta.bounds"))),
         "C03" => c03::run(&Ctx::new("C03", tier)),
